@@ -64,3 +64,19 @@ m = {
 with open(os.path.join(ROOT, "MANIFEST.json"), "w") as f:
     json.dump(m, f, indent=1)
 print("MANIFEST.json: %d checks, %d not claimed" % (len(checks), len(m["not_applicable"])))
+
+
+# source_fingerprint.json: sha256 of every file under src/ at /repo's HEAD commit (committed content, not the working tree)
+import hashlib
+import subprocess
+repo = os.environ.get("VERIF_REPO", "/repo")
+head = subprocess.run(["git", "-C", repo, "rev-parse", "HEAD"], capture_output=True, text=True).stdout.strip()
+names = subprocess.run(["git", "-C", repo, "ls-tree", "-r", "--name-only", "HEAD", "src"], capture_output=True, text=True).stdout.split()
+fp = {}
+for n in names:
+    blob = subprocess.run(["git", "-C", repo, "show", "HEAD:" + n], capture_output=True).stdout
+    fp[n] = hashlib.sha256(blob).hexdigest()
+with open(os.path.join(ROOT, "source_fingerprint.json"), "w") as f:
+    json.dump({"repo_commit": head, "files": fp}, f, indent=1, sort_keys=True)
+    f.write("\n")
+print("source_fingerprint.json: %d files at %s" % (len(fp), head[:10]))
